@@ -8,6 +8,7 @@ import (
 	"time"
 
 	"go.mongodb.org/mongo-driver/bson"
+	"go.mongodb.org/mongo-driver/bson/primitive"
 
 	"verifharness/internal/gen"
 	"verifharness/internal/model"
@@ -28,7 +29,8 @@ func runAPIHistory(key uint64, upto int) (steps []apiStep, final *run.Violation,
 		panic(err)
 	}
 	defer env.engine.Close()
-	g := newAPIGen(r, env, time.Now().UnixMilli())
+	clk := time.Now().UnixMilli()
+	g := newAPIGen(r, env, clk)
 	n := 1 + r.N(25)
 	if g.profile != "" && n < 10 {
 		n += 10
@@ -36,7 +38,7 @@ func runAPIHistory(key uint64, upto int) (steps []apiStep, final *run.Violation,
 	if upto >= 0 && upto < n {
 		n = upto
 	}
-	m := newAPIRunner(env, `,"hk":"`+strconv.FormatUint(key, 10)+`"`)
+	m := newAPIRunner(env, `,"hk":"`+strconv.FormatUint(key, 10)+`","clk":`+strconv.FormatInt(clk, 10))
 	for i := 0; i < n; i++ {
 		steps = append(steps, m.step(g.next()))
 	}
@@ -161,6 +163,38 @@ func decodeAPICall(o reqObj) *apiCall {
 	return c
 }
 
+func shiftDateVal(v interface{}, clk, delta int64) interface{} {
+	switch x := v.(type) {
+	case primitive.DateTime:
+		if d := int64(x) - clk; d > -48*3600e3 && d < 48*3600e3 {
+			return primitive.DateTime(int64(x) + delta)
+		}
+	case bson.D:
+		for i := range x {
+			x[i].Value = shiftDateVal(x[i].Value, clk, delta)
+		}
+	case bson.A:
+		for i := range x {
+			x[i] = shiftDateVal(x[i], clk, delta)
+		}
+	}
+	return v
+}
+
+func shiftDates(c *apiCall, clk, delta int64) {
+	for _, d := range []bson.D{c.Doc, c.Q, c.U, c.Repl, c.Partial} {
+		shiftDateVal(d, clk, delta)
+	}
+	for _, d := range c.Docs {
+		shiftDateVal(d, clk, delta)
+	}
+	for _, m := range c.Models {
+		for _, d := range []bson.D{m.Doc, m.Q, m.U, m.Repl} {
+			shiftDateVal(d, clk, delta)
+		}
+	}
+}
+
 // apiReplay re-executes a history on the implementation and (if available) the model and
 // prints the canonical replies side by side. Accepted requests:
 //
@@ -181,8 +215,43 @@ func apiReplay(req string) string {
 		}
 		defer env.engine.Close()
 		m := newAPIRunner(env, "")
+		// ObjectIDs generated in the recorded run are renamed to the ones generated now
+		// (position by position in the "oids" lists), so later calls still refer to them
+		rename := map[string]string{}
+		genOids := func(line string) []string {
+			var out []string
+			if i := strings.Index(line, `"oids":[`); i >= 0 {
+				for _, mm := range oidRe.FindAllStringSubmatch(line[i:], -1) {
+					if mm[1] != dummyOid.Hex() {
+						out = append(out, mm[1])
+					}
+				}
+			}
+			return out
+		}
 		for _, x := range calls {
-			steps = append(steps, m.step(decodeAPICall(reqObj(x.(map[string]interface{})))))
+			raw, _ := json.Marshal(x)
+			line := oidRe.ReplaceAllStringFunc(string(raw), func(mm string) string {
+				if to, ok := rename[mm[6:30]]; ok {
+					return `{"o":"` + to + `"}`
+				}
+				return mm
+			})
+			o, err := parseReq(line)
+			if err != nil {
+				return ""
+			}
+			c := decodeAPICall(o)
+			if clk, ok := o.i64("clk"); ok {
+				// dates generated around the recorded clock move with the clock (TTL outcomes stay the same)
+				shiftDates(c, clk, time.Now().UnixMilli()-clk)
+			}
+			st := m.step(c)
+			steps = append(steps, st)
+			was, now := genOids(string(raw)), genOids(st.req)
+			for i := 0; i < len(was) && i < len(now); i++ {
+				rename[was[i]] = now[i]
+			}
 		}
 		final = m.finalProbe()
 	} else if hk, ok := o["hk"].(string); ok {
